@@ -18,6 +18,7 @@ import SpecKitV.Gen.Attrs
 import SpecKitV.Gen.Sched
 import SpecKitV.Gen.Utils
 import SpecKitV.Gen.Noise
+import SpecKitV.Gen.Dsp
 
 namespace Drv
 
@@ -246,6 +247,13 @@ def opTaps : M String := do
   let h ← nat
   let d ← flt
   return joinF ((List.range (2 * h)).map (fun k => Model.tap h d k))
+
+/-- the taps as TRANSLATED from dsp.lagrange_taps each run (one fractional shift) -/
+def opGenTaps : M String := do
+  let h ← nat
+  let d ← flt
+  let t := Gen.lagrange_taps d (h : Int)
+  return joinF ((List.range t.n).map t.get)
 
 /-- `tshift <const|var> h data (sInt d)…` : const takes one (sInt, d); var takes one per sample -/
 def opTshift : M String := do
@@ -477,6 +485,7 @@ def dispatch : M String := do
   | "starts" => opStarts
   | "attr" => opAttr
   | "taps" => opTaps
+  | "gentaps" => opGenTaps
   | "tshift" => opTshift
   | "cascade" => opCascade
   | "gen" => opGen
